@@ -140,8 +140,7 @@ def handle : Handler := fun op a =>
       let bins ← getBins a "bins"
       let oneBased ← getBool a "one_based"
       let file ← fld a "file" >>= listOf tbxRecOf
-      let d : Int := if oneBased then 1 else 0
-      let recs : List Rec := file.map fun r => ⟨r.c1, r.p1, r.c2, r.p2 - d, [], [], []⟩
+      let recs : List Rec := tbxRecs oneBased file
       let o : Opts := { tril := .keep }
       return Json.mkObj [
         ("valid", Json.bool (validSegmentationB bins)),
